@@ -11,7 +11,7 @@
 import Mb2.Tags
 import Mb2.Lemmas.Tags
 import Mb2.Props.C03
-import Mb2.Props.C04
+import Mb2.Props.C04Parts
 import Mb2.Props.C15
 import Mb2.Props.C18
 import Mb2.Props.C19
